@@ -37,11 +37,18 @@ func genC13(mode string) func(t *rapid.T) c13Case {
 		crowd := rapid.IntRange(4, 20).Draw(t, "crowd")
 		n += crowd
 		// at least two valid requests with their own histories (distinct hashes) and one failing one
+		shared := genHistory(t, 3, 8) // half of the cases: the two valid requests start from the SAME tree state
+		shareState := rapid.Bool().Draw(t, "share_prestate")
 		for i := 0; i < n; i++ {
 			cl := c13Client{OffsetMs: rapid.IntRange(0, 30).Draw(t, "offset")}
 			switch {
 			case i < 2:
 				m := genValidParams(t, mode, 3, 2)
+				if shareState {
+					if sm := genValidParamsOn(t, shared, mode, 2); sm != nil {
+						m = sm
+					}
+				}
 				cl.Req = genReq{Method: "POST", Body: m.writeDoc(styleHexLower), Class: "valid", Expect: "valid", Hash: m.InputHash}
 				if pad := pick(t, "valid_pad", 0, 0, 1<<20, 4<<20); pad > 0 {
 					// megabyte bodies (production batches are this large): reading and decoding then take long enough to overlap
